@@ -98,10 +98,11 @@ theorem bindTx_roots_mem {l : List (Option Txn)} {t : Nat} {r : Root}
 theorem roots_inv (s : St) (t : Nat) (r : Root) (h : (t, r) ∈ roots s) :
     (r = .alloc ∧ s.allocWake = some t) ∨ (r = .allocTx ∧ ∃ x, s.allocTx = some x ∧ x.due = t) ∨
     (r = .perm ∧ s.permWake = some t) ∨ (r = .permTx ∧ ∃ x, s.permTx = some x ∧ x.due = t) ∨
-    (r = .bind ∧ s.bindWake = some t) ∨ (∃ p x, r = .bindTx p ∧ s.bindTx.getD p none = some x ∧ x.due = t) := by
+    (r = .bind ∧ s.bindWake = some t) ∨ (∃ p x, r = .bindTx p ∧ s.bindTx.getD p none = some x ∧ x.due = t) ∨
+    (r = .closeTx ∧ ∃ x, s.closeTx = some x ∧ x.due = t) := by
   unfold roots at h
   simp only [List.mem_append] at h
-  rcases h with ((((h | h) | h) | h) | h) | h
+  rcases h with (((((h | h) | h) | h) | h) | h) | h
   · exact Or.inl (optRoot_mem h)
   · have := optRoot_mem h
     refine Or.inr (Or.inl ⟨this.1, ?_⟩)
@@ -115,26 +116,31 @@ theorem roots_inv (s : St) (t : Nat) (r : Root) (h : (t, r) ∈ roots s) :
     | none => rw [hx] at this; simp at this
     | some x => rw [hx] at this; simp at this; exact ⟨x, rfl, this.2⟩
   · exact Or.inr (Or.inr (Or.inr (Or.inr (Or.inl (optRoot_mem h)))))
-  · exact Or.inr (Or.inr (Or.inr (Or.inr (Or.inr (bindTx_roots_mem h)))))
+  · exact Or.inr (Or.inr (Or.inr (Or.inr (Or.inr (Or.inl (bindTx_roots_mem h))))))
+  · have := optRoot_mem h
+    refine Or.inr (Or.inr (Or.inr (Or.inr (Or.inr (Or.inr ⟨this.1, ?_⟩)))))
+    cases hx : s.closeTx with
+    | none => rw [hx] at this; simp at this
+    | some x => rw [hx] at this; simp at this; exact ⟨x, rfl, this.2⟩
 
 /-! ### frames: which fields a handler can touch -/
 
 /-- the fields the allocation invariant reads -/
 def Same (s s' : St) : Prop :=
   s'.cfg = s.cfg ∧ s'.dead = s.dead ∧ s'.closed = s.closed ∧ s'.allocExp = s.allocExp ∧ s'.now = s.now ∧
-  s'.allocWake = s.allocWake ∧ s'.allocTx = s.allocTx
+  s'.allocWake = s.allocWake ∧ s'.allocTx = s.allocTx ∧ s'.closeTx = s.closeTx
 
-theorem Same.refl (s : St) : Same s s := ⟨rfl, rfl, rfl, rfl, rfl, rfl, rfl⟩
+theorem Same.refl (s : St) : Same s s := ⟨rfl, rfl, rfl, rfl, rfl, rfl, rfl, rfl⟩
 theorem Same.trans {a b c : St} (h1 : Same a b) (h2 : Same b c) : Same a c := by
-  obtain ⟨a1, a2, a3, a4, a5, a6, a7⟩ := h1
-  obtain ⟨b1, b2, b3, b4, b5, b6, b7⟩ := h2
-  exact ⟨b1.trans a1, b2.trans a2, b3.trans a3, b4.trans a4, b5.trans a5, b6.trans a6, b7.trans a7⟩
+  obtain ⟨a1, a2, a3, a4, a5, a6, a7, a8⟩ := h1
+  obtain ⟨b1, b2, b3, b4, b5, b6, b7, b8⟩ := h2
+  exact ⟨b1.trans a1, b2.trans a2, b3.trans a3, b4.trans a4, b5.trans a5, b6.trans a6, b7.trans a7, b8.trans a8⟩
 
 theorem maybeBind_same (s : St) (t p : Nat) : Same s (maybeBind s t p) := by
   unfold maybeBind
   split
   · split
-    · exact ⟨rfl, rfl, rfl, rfl, rfl, rfl, rfl⟩
+    · exact ⟨rfl, rfl, rfl, rfl, rfl, rfl, rfl, rfl⟩
     · exact Same.refl s
   · exact Same.refl s
 
@@ -204,9 +210,10 @@ theorem transmit_frame (s : St) (k : Kind) (x : Txn) :
 
 theorem transmit_same_but_exp (s : St) (k : Kind) (x : Txn) :
     (transmit s k x).1.cfg = s.cfg ∧ (transmit s k x).1.dead = s.dead ∧ (transmit s k x).1.closed = s.closed ∧
-    (transmit s k x).1.now = s.now ∧ (transmit s k x).1.allocWake = s.allocWake ∧ (transmit s k x).1.allocTx = s.allocTx := by
+    (transmit s k x).1.now = s.now ∧ (transmit s k x).1.allocWake = s.allocWake ∧ (transmit s k x).1.allocTx = s.allocTx ∧
+    (transmit s k x).1.closeTx = s.closeTx := by
   obtain ⟨ae, pe, ce, tn, wy, h⟩ := transmit_frame s k x
-  rw [h]; exact ⟨rfl, rfl, rfl, rfl, rfl, rfl⟩
+  rw [h]; exact ⟨rfl, rfl, rfl, rfl, rfl, rfl, rfl⟩
 
 /-- CreatePermission / ChannelBind transmissions while the allocation is live -/
 theorem transmit_other (s : St) (k : Kind) (x : Txn) (e : Nat) (hk : ∀ lt, k ≠ .rf lt) (he : s.allocExp = some e) (ht : x.due < e) :
